@@ -443,6 +443,9 @@ func (t *Tokenizer) tokenizeBuffer(buf []byte, last bool) {
 			t.mode = commentMap
 		case commentEnd:
 			t.mode = valueMap
+		case openParen, closeParen:
+			// functions can not be delivered to a TokenHandler
+			t.newError(off, "unexpected character '%c'", b)
 		case charErr:
 			t.byteError(off, t.mode, b)
 		}
